@@ -114,6 +114,8 @@ def run(ctx, monitors):
             # memdb: round-based live cursor over the ring buffer; its scan skips no stored round
             mc += [("MC_SyncServe_mem.cfg", True), ("MC_SyncServe_same.cfg", True), ("MC_SyncServe_memevict.cfg", True)]
         mc += [("MC_SyncServe_%s.cfg" % m, False) for m in ("NoGap", "NoRepeat", "LiveComplete")]
+        # a client that stalls and resumes: the design blocks the writer, it never drops a round
+        mc.append(("MC_SyncServe_resume.cfg", True))
         if not q:
             mc += [(c, False) for c in ("MC_SyncServe_sameLive.cfg", "MC_SyncServe_w2.cfg", "MC_SyncServe_memseek.cfg")]
     if c12:
@@ -175,7 +177,7 @@ def run(ctx, monitors):
     k = max(1, min(SHARDS, len(scripts) // 50 + 1))
     for i in range(k):
         jobs.append((i + 1, scripts[i::k], None))
-    builtin = ",".join((["soak"] if c11 else []) + (["stall", "scanstall", "replstall"] if c12 else []))
+    builtin = ",".join((["soak", "slowresume"] if c11 else []) + (["stall", "scanstall", "replstall"] if c12 else []))
     if q:
         jobs.append((0, None, builtin))
     else:
@@ -208,6 +210,7 @@ def _judge(ctx, monitors, scripts, jobs):
     allok = True
     replays = {}
     drift = []
+    optimistic = []
     seen = {}
     for tp, (ok, alarms, res) in zip(traces, results):
         allok = allok and ok
@@ -230,9 +233,16 @@ def _judge(ctx, monitors, scripts, jobs):
                 ctx.alarm(sig, text, replay=rfile or replays.get(key))
             elif a["mon"] == "Conformance":
                 drift.append(a)
+            elif a["mon"] == "Optimistic":
+                optimistic.append(a)
     ctx.sample({"stage": "syncserve", "trace_head": sample_lines(traces[-1], 4, 300)})
     ctx.notes.append("monitor alarms on observed executions by (monitor, shape): %s"
                      % ", ".join("%s/%s x%d" % (k[0], k[1], v) for k, v in sorted(seen.items())))
+    if optimistic:
+        # the real code did better than the code-faithful design predicts (e.g. a defect was repaired): a
+        # note, the monitors judge the observed executions either way
+        ctx.notes.append("%d replayed behaviours did NOT show a monitor failure that SyncServe.tla predicts, first: %s"
+                         % (len(optimistic), optimistic[0]["scenario"]))
     if drift:
         ctx.inconclusive.append("SyncServe: %d differences between the real code and the behaviour predicted by SyncServe.tla "
                                 "(model drift or an un-executable step), first: %s" % (len(drift), drift[0]))
